@@ -256,7 +256,7 @@ where
             DirectionForInsert::Reached => {
                 // increment the count, as node.value will be `None`. We do it here as we borrow
                 // `map` mutably in the next line.
-                self.map.count += 1;
+                *self.map.table.count_mut() += 1;
                 let node = &mut self.map.table[self.idx];
                 node.prefix = self.prefix;
                 debug_assert!(node.value.is_none());
